@@ -250,6 +250,49 @@ def rule_seq(chk, rid, ctx):
                        f"{op!r} then {n1!r}: next operation starts {d} steps from the checkpoint", rel=op.rel, node=op.node)
 
 
+def rule_seq_paths(chk, rid, ctx):
+    """adjacency along whole production paths (across basic blocks): a load is never directly followed by
+    another load (working storage would hold unused restart data), and the operation after a Read/Write(x)
+    starts at x"""
+    from ..gram import production_paths
+    g = Grammar(ctx.repo)
+    for fname, b in sorted(g.builders.items()):
+        if not b.live:
+            continue
+        seen = set()
+        for conds, items in production_paths(g, fname):
+            flat = [x for x in items if not isinstance(x, tuple)]
+            for a, z in zip(flat, flat[1:]):
+                if a.kind != "op" or z.kind != "op":
+                    continue
+                if a.run is z.run:
+                    continue      # same basic block: decided by the production-local rule
+                key = (id(a.node), id(z.node))
+                if key in seen:
+                    continue
+                seen.add(key)
+                cons = f"{a.construct}->{z.construct}"
+                if a.type.startswith("Read") and z.type.startswith("Read"):
+                    chk.decide(rid, cons, False,
+                               f"{a!r} is directly followed by {z!r} on the path {[(c[0].lineno, c[1]) for c in conds][-3:]}: a second "
+                               "checkpoint is loaded while working storage still holds the unused restart data of the first",
+                               rel=b.rel, node=z.node)
+                elif a.type.split("_")[0] in ("Read", "Write") and not a.type.startswith("Write_Forward"):
+                    _, x = a.level_step()
+                    d = None
+                    if z.type == "Forward":
+                        d = diff_const(z.span()[0], x)
+                    elif z.type.startswith("Write_Forward"):
+                        d = diff_const(z.level_step()[1], x)
+                        d = None if d is None else d - 1
+                    elif z.type.split("_")[0] in ("Write", "Discard"):
+                        d = diff_const(z.level_step()[1], x)
+                    if d is not None:
+                        chk.decide(rid, cons, True if d == 0 else False,
+                                   f"{a!r} then {z!r} (across blocks): next operation starts {d} steps from the checkpoint",
+                                   rel=b.rel, node=z.node)
+
+
 def rule_paired(chk, rid, ctx):
     """a conditional Write [lvl, x] and the later conditional Read of the same checkpoint must be guarded by the
     same condition (otherwise a checkpoint is written and never read, or read and never written)"""
@@ -302,6 +345,7 @@ def run(chk, ctx):
     rule_passes(chk, "C01.PASSES", runs)
     rule_seq(chk, "C01.SEQ", ctx)
     rule_paired(chk, "C01.SEQ", ctx)
+    rule_seq_paths(chk, "C01.SEQ", ctx)
     chk.note("not decided: that the split points chosen by the dynamic programs make every sequence executable for all l, "
              "that a loaded checkpoint covers the steps still to be recomputed, and that Mixed's unit re-use never "
              "overwrites a live checkpoint (these depend on run-time table values)")
